@@ -125,7 +125,7 @@ Proof.
 Qed.
 
 Lemma setmapping_lookup_lemma csr f data c :
-  prefix_free csr -> cid_data_ok csr data -> omit_safe f (code_entries csr data) ->
+  prefix_free csr -> cid_data_ok csr data ->
   lookup_cid (set_mapping csr f data) c =
   match assoc (code_entries csr data) c with
   | Some v => v
@@ -135,15 +135,15 @@ Lemma setmapping_lookup_lemma csr f data c :
             end
   end.
 Proof.
-  intros Hpf Hd Hs. destruct (cid_data_entries csr data Hpf Hd) as (H1 & H2 & H3 & _).
+  intros Hpf Hd. destruct (cid_data_entries csr data Hpf Hd) as (H1 & H2 & H3 & _).
   apply setmapping_lookup_bytes_lemma; assumption.
 Qed.
 
 Lemma setmapping_lookup_mapped_lemma csr f data code v :
-  prefix_free csr -> cid_data_ok csr data -> omit_safe f (code_entries csr data) -> In (code, v) data ->
+  prefix_free csr -> cid_data_ok csr data -> In (code, v) data ->
   lookup_cid (set_mapping csr f data) (append_code csr code) = v.
 Proof.
-  intros Hpf Hd Hs Hin. rewrite setmapping_lookup_lemma by assumption.
+  intros Hpf Hd Hin. rewrite setmapping_lookup_lemma by assumption.
   destruct Hd as (H1 & H2 & _). rewrite (code_entries_assoc csr data code v Hpf H1 H2 Hin). reflexivity.
 Qed.
 
@@ -276,33 +276,25 @@ Lemma notdef_prefix_root_lemma f c :
   lookup_cid_opt f c = None -> lookup_cid_prefix f c = lookup_notdef (c_root f) c.
 Proof. intros H. rewrite lookup_cid_prefix_split, H. reflexivity. Qed.
 
-(* ---- SetMapping omits an entry the parent answers from ITS notdef entries ---- *)
+(* ---- F34: SetMapping before the repair omitted an entry the parent answers from ITS notdef entries ---- *)
 
-(* a file with a parent and the notdef range <20>-<60> -> 7; the map 50 -> 0 *)
+(* a file with a parent and the notdef range <20>-<60> -> 7; the map 50 -> 0, 51 -> 9 *)
 Definition shadow_file : cfile :=
   CFile simple_csr [] [] [] [([32], [96], 7)] (Some (CFile simple_csr [([65], 1)] [] [] [] None)).
-Definition shadow_data : list (N * N) := [(80, 0); (81, 9)].
+Definition shadow_entries : list (bytes * N) := [([80], 0); ([81], 9)].
 
-Lemma shadow_data_ok : cid_data_ok simple_csr shadow_data.
+Lemma setmapping_prefix_refuted :
+  exists csr f es c v,
+    NoDup (map fst es) /\ wf_entries N es /\ cid_ok es /\ assoc es c = Some v /\
+    lookup_cid (set_mapping_bytes_prefix csr f es) c <> v.
 Proof.
-  unfold cid_data_ok, shadow_data. repeat split.
+  exists simple_csr, shadow_file, shadow_entries, [80], 0. repeat split.
   - repeat constructor; cbn; intuition discriminate.
-  - repeat constructor.
-    + exists [80]. vm_compute. repeat split; repeat constructor; lia.
-    + exists [81]. vm_compute. repeat split; repeat constructor; lia.
-  - repeat constructor; cbn; unfold two32; lia.
-Qed.
-
-Lemma setmapping_mapped_refuted :
-  exists csr f data code v,
-    prefix_free csr /\ cid_data_ok csr data /\ In (code, v) data /\
-    lookup_cid (set_mapping csr f data) (append_code csr code) <> v.
-Proof.
-  exists simple_csr, shadow_file, shadow_data, 80, 0. repeat split.
-  - exact simple_prefix_free.
-  - apply shadow_data_ok.
-  - apply shadow_data_ok.
-  - apply shadow_data_ok.
-  - left. reflexivity.
+  - unfold wf_entries, wf_code, shadow_entries. repeat constructor; cbn; try discriminate; lia.
+  - unfold cid_ok, two32, shadow_entries. repeat constructor; cbn; lia.
   - vm_compute. discriminate.
 Qed.
+
+Lemma shadow_now_right :
+  map (lookup_cid (set_mapping_bytes simple_csr shadow_file shadow_entries)) [[65]; [80]; [81]; [48]; [97]] = [1; 0; 9; 7; 0].
+Proof. vm_compute. reflexivity. Qed.
